@@ -129,6 +129,22 @@ REGISTRY["C17"] = {
                     "changing the referenced type are seen only by the engine"],
 }
 
+REGISTRY["C04"] = {
+    "engine": "engine_ser",
+    "theorems": [(A + "SerSchema", "Api.C04_keys"), (A + "SerSchema", "Api.omitted_skippable"), (A + "SerSchema", "Api.serFields_props")],
+    "partial": "emitted keys = aliases of the non-omitted fields in field order, and the omission rule against the 2^4 flag combinations, are proved; "
+               "the full image (conversions, serialized methods, flattened fields, fall_back_on_any, check_type) is decided by the correspondence with the "
+               "semantic model of serialization and by the checks on the real code",
+    "assumptions": MODEL_ASSUMPTIONS,
+}
+REGISTRY["C05"] = {
+    "engine": "engine_ser",
+    "theorems": [(A + "RoundTripThm", "Api.C05_roundtrip_partial"), (A + "RoundTripThm", "Api.roundtrip_nocopy_off")],
+    "partial": "deserialize(serialize(v)) = v proved on the index-keyed fragment (primitives, lists, tuples, NewTypes, annotations) for every option "
+               "record; objects, mappings, sets, unions, enums, std-type conversions and json.dumps / loads transparency are decided by the engine",
+    "assumptions": MODEL_ASSUMPTIONS,
+}
+
 LEVEL_NOTE = ("Trusted: Lean 4.33 kernel; axioms propext / Classical.choice / Quot.sound only (audited by #print axioms on every run, no sorry / "
               "native_decide / own axioms); the hand-written model, tied to /repo by the differential correspondence of this check (same cases to the "
               "real code and to the compiled Lean driver); tools/extract.py for the regenerated tables; CPython / typing / dataclasses. "
@@ -164,11 +180,16 @@ TEXT["C17"] = ("Kernel-checked theorems on the type-graph model of RefsExtractor
                "of $defs, the builder produces every schema with fuel |names|+1 (it cannot recurse for ever), definition keys are duplicate-free and the "
                "all_refs rule; the model is compared with the $defs / $ref structure of real schemas on generated, recursive class graphs, and well-formedness "
                "is checked with the dialect's meta-schema.")
+TEXT["C04"] = ("Kernel-checked theorems on the model of object serialization (emitted keys are exactly the aliases of the non-omitted fields, in field order; what "
+               "serialize omits is what the options ask for, over all flag combinations); the semantic model of serialize is compared with the real "
+               "output on generated values, and JSON-only output, serialize(v) = serialize(type(v), v) and the omission rule are checked on the real code.")
+TEXT["C05"] = ("Kernel-checked round-trip theorem (exists j, ser T v = j and deserialize T j = v) on the index-keyed fragment for every serialization and "
+               "deserialization option record; both round trips (also through json.dumps / loads) are evaluated on the real code on generated values.")
 for k, v in TEXT.items():
     REGISTRY[k]["level_text"] = v
     REGISTRY[k]["level_note"] = LEVEL_NOTE
 
 # properties registered in MANIFEST.json (a property is claimed once its check is green on the unchanged tree)
-CLAIMED = ["C01", "C02", "C03", "C06", "C07", "C08", "C10", "C13", "C14", "C15", "C16", "C17", "C18"]
+CLAIMED = ["C01", "C02", "C03", "C04", "C05", "C06", "C07", "C08", "C10", "C13", "C14", "C15", "C16", "C17", "C18"]
 PENDING_REASON = "check under construction in this session (model and theorems exist, engine being registered); not yet claimed"
 NOT_CLAIMED = {f"C{i:02d}": PENDING_REASON for i in range(1, 21) if f"C{i:02d}" not in CLAIMED}
